@@ -235,6 +235,14 @@ pub fn corpus<G: GroupApi>(tier: Tier, seed: u64) -> Corpus {
             push(&mut set, &mut items, f, e.clone());
         }
     }
+    // the valid encodings of every small discrete log (no corruption): decorrelates the corpus from rules that
+    // agree with the SM9 conventions on a handful of points only
+    for d in 4..=tier.pick(40u64, 128) {
+        let p = ref_mul::<G>(&n(d));
+        for f in Fmt::ALL {
+            push(&mut set, &mut items, f, G::ref_encode(&p, f).unwrap());
+        }
+    }
     let npts = tier.pick(8, ds.len());
     for enc in valid.iter().take(npts) {
         for (f, e) in enc {
